@@ -86,8 +86,18 @@ def check(rep, tier):
     rep.assumptions = ["run theorem is PARTIAL: 'an iced vial's ice fraction stays positive' is observed on each trajectory (oracle clause sigma-range / ice-disappears), not derived"]
     inside = outside = 0
     steps = []
-    for ri in range(nruns):
-        cfg = fr.gen_config(rng, max_vials=30 if tier == "quick" else 120, max_steps=700, cn=(ri % 4 == 3))
+    # fixed corpus (independent of the seed): 'direct' initial-ice formulation, concentrated solution (depression 1.35 K), controlled nucleation at a
+    # hold just below T_eq_l: the vials nucleate at a supercooling SMALLER than the freezing-point depression
+    fixed = [dict(arr="square", shape=(3, 3, 1), k={"int": 20, "ext": 20, "s0": 20, "s_sigma_rel": 0}, dt=10.0, T_init=None,
+                  over={"solution": {"solid_fraction": 0.2}, "snowfall_parameters": {"vial_arrangement": "square"}}, initIce="direct", seed=11, seed_v=12,
+                  prog=dict(start=5, end=-40, rate=0.5 / 60, holds=[{"duration": 1800, "temp": -2.5}], t_tot=9000.0, dt=10.0), cnTemp=-2.5, thr=0.9),
+             dict(arr="hexagonal", shape=(2, 3, 2), k={"int": 20, "ext": 5, "s0": 50, "s_sigma_rel": 0}, dt=10.0, T_init=None,
+                  over={"solution": {"solid_fraction": 0.1}, "snowfall_parameters": {"vial_arrangement": "hexagonal"}}, initIce="direct", seed=3, seed_v=4,
+                  prog=dict(start=5, end=-40, rate=0.5 / 60, holds=[{"duration": 2400, "temp": -1.5}], t_tot=9000.0, dt=10.0), cnTemp=-1.5, thr=0.9)]
+    for ri in range(nruns + len(fixed)):
+        cfg = fixed[ri - nruns] if ri >= nruns else fr.gen_config(rng, max_vials=30 if tier == "quick" else 120, max_steps=700, cn=(ri % 4 == 3))
+        if ri >= nruns:
+            rep.count("fixed corpus: direct formulation at small supercooling")
         if ri % 10 == 1 and cfg["shape"][2] == 1:
             cfg["k"] = dict(cfg["k"], s_sigma_rel=1.0)      # large shelf variability: some draws are negative and must be clipped to 0
         try:
